@@ -134,21 +134,35 @@ Definition spec_accepts (s : spec) (op : map_op) (o : out) : option spec :=
   | OpDropMap => expect o OutUnit []
   end.
 
-(* After an operation unwound with a user panic: every element still present must come from the
-   pre-state or be the one being inserted (contents may have lost elements only through clear /
-   drain-like ops).  The precise per-op statement lives in Properties/C04.v; the acceptor used at
-   run time only demands that the post-state contents `post` be explainable. *)
-Definition unwind_accepts (s : spec) (op : map_op) (post : list kv) : bool :=
-  match op with
-  | OpClear | OpDrain _ | OpDropMap | OpWithCapacity _ =>
-      match sublist_of post s with Some _ => true | None => false end
-  | OpRetain keep bump =>
-      (* values may or may not have been bumped; keys must come from s *)
-      forallb (fun e => match lookup s (k_id e) with Some e' => k_stamp e =? k_stamp e' | None => false end) post
-  | OpExtend kvs =>
-      forallb (fun e => match lookup s (k_id e) with
-                        | Some _ => true
-                        | None => existsb (fun x => k_id x =? k_id e) kvs
-                        end) post
-  | _ => same_set post s                     (* single-element ops: panic before any change *)
+(* After an operation unwound with a user panic (C04): every element still present must be an
+   element of the pre-state (same stored key object; retain / and_modify may already have
+   changed its value) or one of the elements the operation was inserting, each key at most once.
+   Elements of the pre-state that are missing must have been dropped exactly once: that part is
+   checked by the harness registry (leak / double-drop accounting), not here. *)
+Fixpoint nodup_keys (l : list kv) : bool :=
+  match l with
+  | [] => true
+  | e :: r => negb (existsb (fun x => k_id x =? k_id e) r) && nodup_keys r
   end.
+
+Definition op_new_elems (op : map_op) : list kv :=
+  match op with
+  | OpInsert k st v | OpTryInsert k st v | OpEntryOrInsert k st v | OpEntryInsert k st v => [mkKV k st v]
+  | OpEntryAndModify k st _ v => [mkKV k st v]
+  | OpExtend kvs => kvs
+  | _ => []
+  end.
+
+Definition value_may_change (op : map_op) : bool :=
+  match op with
+  | OpRetain _ _ | OpEntryAndModify _ _ _ _ | OpGetMut _ _ | OpExtend _ | OpInsert _ _ _ | OpEntryInsert _ _ _ => true
+  | _ => false
+  end.
+
+Definition unwind_accepts (s : spec) (op : map_op) (post : list kv) : bool :=
+  nodup_keys post &&
+  forallb (fun e =>
+             match lookup s (k_id e) with
+             | Some e' => (k_stamp e =? k_stamp e') && (value_may_change op || (v_val e =? v_val e'))
+             | None => existsb (fun x => (k_id x =? k_id e) && (k_stamp x =? k_stamp e)) (op_new_elems op)
+             end) post.
